@@ -193,3 +193,36 @@ Proof.
     rewrite forallbn_spec in Hc. specialize (Hc s Hs). rewrite forallbn_spec in Hc.
     specialize (Hc a Ha). apply ncloseb_R in Hc. exact Hc.
 Qed.
+
+(* ------------------------------------------------------------------------------------ *)
+(* Non-vacuity: a concrete 3-state, 2-action MDP (state 2 absorbing, stochastic branching), *)
+(* m = 2, four recorded episodes after which two pairs are known, two are partially tried *)
+(* and two were never tried.  The model learner terminates on it, its output passes the   *)
+(* checker, and so every hypothesis of the theorems above is satisfiable.                 *)
+(* ------------------------------------------------------------------------------------ *)
+Local Open Scope Q_scope.
+Definition exP : list (list (list Q)) :=
+  [ [[0; 1#2; 1#2]; [1#2; 0; 1#2]]; [[0; 0; 1]; [1#2; 0; 1#2]]; [[0; 0; 1]; [0; 0; 1]] ].
+Definition exRw : list (list (list Q)) :=
+  [ [[0; 1; 0]; [0; 0; 0]]; [[0; 0; 1#2]; [0; 0; 0]]; [[0; 0; 0]; [0; 0; 0]] ].
+Definition exAb := [false; false; true].
+Definition exIni : list Q := [1; 0; 0].
+Definition st (s a : nat) (r : Q) (ns : nat) : @step Q := (s, a, r, ns).
+Definition exEps : list (@episode Q) :=
+  [ ([st 0 0 1 1; st 1 0 (1#2) 2], 2%nat);
+    ([st 0 0 1 1; st 1 1 0 0; st 0 1 0 2], 2%nat);
+    ([st 0 0 0 2], 2%nat);
+    ([st 0 1 0 0; st 0 1 0 2], 2%nat) ].
+Definition exTol : Q := 1#100000.
+Definition exO : learner Q :=
+  match @train Q NumQ 3 2 2 (1#2) 1 exTol 100 (experience exEps) with
+  | Some L => L | None => @init_learner Q NumQ 3 2 (1#2) 1 end.
+Definition exPi : list (list Q) := tab2 3 2 (@greedy Q NumQ 2 (l_q exO)).
+
+Example ex_train : @train Q NumQ 3 2 2 (1#2) 1 exTol 100 (experience exEps) = Some exO.
+Proof. vm_compute. reflexivity. Qed.
+Example ex_counts : l_cnt exO = [[2; 2]; [1; 1]; [0; 0]]%nat.
+Proof. vm_compute. reflexivity. Qed.
+Example ex_check :
+  @c17_check Q NumQ 3 2 2 (1#2) 1 exP exRw exAb exIni exEps exO exPi 0 exTol 0 = all_true6.
+Proof. vm_compute. reflexivity. Qed.
